@@ -77,6 +77,48 @@ ob("C19", "O-C19.display.enums", TR + "c19_display_enums", "Display for File/Ran
    ["File::fmt", "Rank::fmt", "Piece::fmt", "Color::fmt"], pkg=T, timeout=900)
 ob("C19", "O-C19.display.move-roundtrip", TR + "c19_display_move_roundtrip", "Display for Move through the real core::fmt gives <from><to>[letter]; parse(format(m)) == m for every legal-shape move, error for king/pawn promotions",
    ["Move::fmt", "Move::from_str", "Square::fmt", "Square::from_str"], pkg=T, timeout=1800)
+# ------------------------------------------------------------------------------------------- C17
+PM = "board::movegen::piece_moves::verif_piece_moves::"
+ob("C17", "O-C17.len", PM + "c17_len", "len / is_empty agree with the enumeration (4 moves per pawn destination on rank 1/8, 1 otherwise)",
+   ["PieceMoves::len", "PieceMoves::is_empty"], timeout=600)
+ob("C17", "O-C17.has", PM + "c17_has", "has(m) == the enumeration yields m, for every move value (incl. king/pawn promotions and promotions on non-pawn batches)",
+   ["PieceMoves::has"], timeout=600)
+ob("C17", "O-C17.iter.step", PM + "c17_iter_step", "PieceMovesIter::next returns the head of the pending enumeration and leaves exactly the tail; exact remaining length; unreachable!() never reached",
+   ["PieceMovesIter::next", "PieceMovesIter::len", "PieceMovesIter::size_hint", "PieceMoves::into_iter"], timeout=900)
+
+# ------------------------------------------------------------------------------------------- C05
+MV = "moves::verif_moves::"
+for nm, fn, what in [
+    ("knight", "get_knight_moves", "knight attack table == 8 leaper offsets, all 64 squares"),
+    ("king", "get_king_moves", "king attack table == 8 neighbour offsets, all 64 squares"),
+    ("pawn_attacks", "get_pawn_attacks", "pawn attack table == two forward diagonals, all (square, colour)"),
+    ("pawn_quiets", "get_pawn_quiets", "pawn pushes == single step onto an empty square, double step from the second rank over two empty squares; all (square, colour, occupancy)"),
+    ("rays", "get_rook_rays/get_bishop_rays", "empty-board rays == slider attacks on the empty board, all 64 squares"),
+    ("between", "get_between_rays", "squares strictly between two aligned squares, empty otherwise; all 64x64 pairs"),
+    ("line", "get_line_rays", "full line through two distinct aligned squares, empty otherwise; all 64x64 pairs"),
+]:
+    ob("C05", "O-C05." + nm.replace("_", "-"), MV + "c05_" + nm, what, [fn], timeout=900)
+ob("C05", "O-C05.spec.between-line", MV + "c05_spec_between_line_coordinates", "oracle guard: the oracle's between/line agree with the coordinate (collinearity / segment) definition for all 64x64x64 triples",
+   ["(oracle) chess_spec::between", "(oracle) chess_spec::line"], timeout=900)
+ob("C05", "O-C05.slider.spec-irrelevant.rook", MV + "c05_spec_irrelevant_rook", "lemma (b): the geometric rook attack set ignores occupancy outside get_rook_relevant_blockers(sq); all squares x 2^64",
+   ["get_rook_relevant_blockers"], timeout=1800)
+ob("C05", "O-C05.slider.spec-irrelevant.bishop", MV + "c05_spec_irrelevant_bishop", "lemma (b): the geometric bishop attack set ignores occupancy outside get_bishop_relevant_blockers(sq); all squares x 2^64",
+   ["get_bishop_relevant_blockers"], timeout=1800)
+ob("C05", "O-C05.slider.index-irrelevant.rook", MV + "c05_index_irrelevant_rook", "lemma (a): get_rook_moves_index ignores occupancy outside the relevant blockers; all squares x 2^64",
+   ["get_rook_moves_index", "get_magic_index"], timeout=1800)
+ob("C05", "O-C05.slider.index-irrelevant.bishop", MV + "c05_index_irrelevant_bishop", "lemma (a): get_bishop_moves_index ignores occupancy outside the relevant blockers; all squares x 2^64",
+   ["get_bishop_moves_index", "get_magic_index"], timeout=1800)
+for i in range(64):
+    ob("C05", "O-C05.slow.sq%02d" % i, MV + "c05_slow_%02d" % i, "const variants (slow walker) == geometric definition for square %d, all 2^64 occupancies (rook and bishop)" % i,
+       ["get_rook_moves_const", "get_bishop_moves_const", "get_rook_moves_slow", "get_bishop_moves_slow", "get_slider_moves"], timeout=900,
+       )
+ob("C05", "O-C05.slider.index-irrelevant.pext", "sliders::pext::verif_pext::c05_pext_index_irrelevant", "lemma (a), PEXT back end: get_rook/bishop_moves_index ignore occupancy outside the relevant blockers and stay below SLIDING_MOVE_TABLE_SIZE; _pext_u64 replaced by its specification (64-step gather)",
+   ["get_pext_index", "get_rook_moves_index (pext)", "get_bishop_moves_index (pext)"], pkg=T, features=("pext",), timeout=1800)
+ob("C05", "O-C05.slider.table.magic", "sliders", "finite case analysis (c): for every square and every subset s of the relevant blockers (107,648 cases) get_rook_moves/get_bishop_moves(sq, s) == geometric definition (index in bounds); default magic back end",
+   ["get_rook_moves", "get_bishop_moves", "get_rook_moves_index", "get_bishop_moves_index", "SLIDING_MOVES (build.rs output)"], backend="native", timeout=600)
+ob("C05", "O-C05.slider.table.pext", "sliders", "finite case analysis (c) in the PEXT configuration (--features pext, -C target-feature=+bmi2, real instruction)",
+   ["get_rook_moves", "get_bishop_moves", "get_pext_index", "pext_u64", "SLIDING_MOVES (build.rs output)"], backend="native", timeout=600, features=("pext",))
+
 
 def for_property(prop, tier):
     out = []
@@ -96,5 +138,8 @@ LEMMAS = {
             "(the sequence starts at the least subset 0, each step is the numeric successor among subsets, and it stops after the greatest subset)"],
 }
 
+LEMMAS["C17"] = ["L-batch: from O-C17.iter.step by induction on the remaining length: iterating a batch yields exactly the moves m with batch_has(m), each exactly once, destinations ascending, promotions in the order N,B,R,Q"]
+LEMMAS["C05"] = ["L-slider (per back end): for all sq, occ: get_X_moves(sq, occ) = T[index(sq, occ)] = T[index(sq, occ & mask)] (lemma a) = spec(sq, occ & mask) (finite case analysis c, every subset of mask) = spec(sq, occ) (lemma b)",
+                 "L-const: const variants == spec (O-C05.slow.*, all 64 squares) hence fast lookups == const variants in both back ends"]
 LEVEL = {}
 ASSUME = {}
